@@ -219,6 +219,9 @@ func (s *Sim) Run() {
 	} else if s.isReplay {
 		if to, ok := s.replay[devKey{-1, 0, 0}]; ok && to >= 0 && to < len(s.tasks) {
 			first = s.tasks[to]
+			if to != 0 {
+				s.recorded = append(s.recorded, Deviation{Task: -1, Op: 0, Idx: 0, To: to})
+			}
 		}
 	}
 	s.cur = first
